@@ -22,7 +22,7 @@ pub fn parse_raw3<'a>(
         trace!(
             "For mipmap size {:?} we should fetch {} bytes",
             blp_header.mipmap_size(i),
-            n * 4
+            n as u64 * 4
         );
 
         let mut reader = Cursor::new(image_bytes);
@@ -69,8 +69,11 @@ pub fn parse_dxtn<'a>(
         // DXT data is stored in 4x4 blocks: partial blocks at the right and bottom
         // edges are whole blocks, so count per dimension
         let (level_width, level_height) = blp_header.mipmap_size(i);
-        let blocks_n = (level_width.div_ceil(4) * level_height.div_ceil(4)) as usize;
-        let mut blocks_size = blocks_n * dxtn.block_size();
+        // The dimensions are untrusted: a block count that does not even fit is
+        // handled like any other count that exceeds the stored data
+        let blocks_n =
+            (level_width.div_ceil(4) as usize).saturating_mul(level_height.div_ceil(4) as usize);
+        let mut blocks_size = blocks_n.saturating_mul(dxtn.block_size());
         trace!("Dxtn blocks count: {blocks_n}");
         trace!("Dxtn format: {dxtn:?}, block size: {}", dxtn.block_size());
         trace!(
